@@ -547,6 +547,53 @@ package autodiff
 
 //@ end
 
+// composite operations (jet-level symbolic execution over the proved primitives)
+//@ for $R,$T in (Real64,@), (Real32,+)
+//@ propsdefault C01$T C02$T C08$T
+//@ func (*$R).Logistic
+//@   jetspec (1 / (((1 / exp(x)) + 1)))
+//@   jetd @dx (((1 / exp(x))) / ((((1 / exp(x)) + 1) * ((1 / exp(x)) + 1))))
+//@   jetd @dxx ((((-1) + ((2 * (1 / exp(x))) / (((1 / exp(x)) + 1)))) * (1 / exp(x))) / ((((1 / exp(x)) + 1) * ((1 / exp(x)) + 1))))
+//@   jetalias c=a
+
+//@ func (*$R).Sigmoid
+//@   jetspec (1 / (((1 / exp(x)) + 1)))
+//@   jetd @dx (((1 / exp(x))) / ((((1 / exp(x)) + 1) * ((1 / exp(x)) + 1))))
+//@   jetd @dxx ((((-1) + ((2 * (1 / exp(x))) / (((1 / exp(x)) + 1)))) * (1 / exp(x))) / ((((1 / exp(x)) + 1) * ((1 / exp(x)) + 1))))
+//@   jetalias c=a
+
+//@ func (*$R).Sqrt
+//@   jetspec sqrt(x)
+//@   jetrequires x > 0
+//@   jetd @dx (((1.0/2.0)) / (sqrt(x)))
+//@   jetd @dxx (((0 - 1.0/4.0)) / (pow(x, (3.0/2.0))))
+//@   jetalias c=a
+
+//@ func (*$R).LogAdd
+//@   jetspec log((exp(x) + exp(y)))
+//@   jetd @dx ((exp(x)) / ((exp(x) + exp(y))))
+//@   jetd @dy ((exp(y)) / ((exp(x) + exp(y))))
+//@   jetd @dxx (((1 + (((0 - 1) * exp(x)) / ((exp(x) + exp(y))))) * exp(x)) / ((exp(x) + exp(y))))
+//@   jetd @dxy (((0 - 1) * exp(x) * exp(y)) / (((exp(x) + exp(y)) * (exp(x) + exp(y)))))
+//@   jetd @dyy (((1 + (((0 - 1) * exp(y)) / ((exp(x) + exp(y))))) * exp(y)) / ((exp(x) + exp(y))))
+//@   jetalias c=a
+//@   jetalias c=b
+//@   jetalias c=a=b
+
+//@ func (*$R).LogSub
+//@   jetspec log((exp(x) + ((0 - 1) * exp(y))))
+//@   jetrequires x > y
+//@   jetd @dx ((exp(x)) / ((exp(x) + ((0 - 1) * exp(y)))))
+//@   jetd @dy (((0 - 1) * exp(y)) / ((exp(x) + ((0 - 1) * exp(y)))))
+//@   jetd @dxx (((1 + (((0 - 1) * exp(x)) / ((exp(x) + ((0 - 1) * exp(y)))))) * exp(x)) / ((exp(x) + ((0 - 1) * exp(y)))))
+//@   jetd @dxy ((exp(x) * exp(y)) / (((exp(x) + ((0 - 1) * exp(y))) * (exp(x) + ((0 - 1) * exp(y))))))
+//@   jetd @dyy (((0 - 1) * (1 + ((exp(y)) / ((exp(x) + ((0 - 1) * exp(y)))))) * exp(y)) / ((exp(x) + ((0 - 1) * exp(y)))))
+//@   jetalias c=a
+//@   jetalias c=b
+//@   jetalias c=a=b
+
+//@ end
+
 // ---------------------------------------------------------------------------
 // the getters of each covered scalar type refine the interface model functions (C02: equal operands give
 // equal values whatever scalar type holds them)
